@@ -28,9 +28,18 @@ def expr_of(op):
         return f"datediff({op['part']}, '{a[0]:04d}-{a[1]:02d}-{a[2]:02d}'::date, '{b[0]:04d}-{b[1]:02d}-{b[2]:02d}'::date)"
     if fn == "todec":
         x = decimal.Decimal(op["x"]) / 1000
-        arg = f"'{x:.3f}'" if op["how"] == "str" else f"{x:.3f}"
+        arg = f"'{x:.3f}'" if op["how"] == "str" else f"{x:.3f}::float" if op["how"] == "flt" else f"{x:.3f}"
         name = ("try_" if op["try"] else "") + op["name"]
-        return f"{name}({arg}, {op['p']}, {op['s']})"
+        form = op.get("form", "ps")
+        if form == "cast":
+            return f"({arg})::number"
+        return f"{name}({arg})" if form == "dflt" else f"{name}({arg}, {op['p']}, {op['s']})"
+    if fn == "todecbig":
+        name = ("try_" if op["try"] else "") + op["name"]
+        form = op["form"]
+        if form == "cast":
+            return f"{'try_cast' if op['try'] else 'cast'}('{op['digits']}' as number)"
+        return f"{name}('{op['digits']}')" if form == "dflt" else f"{name}('{op['digits']}', 38, 0)"
     if fn == "equalnull":
         return f"equal_null({op['a']}, {op['b']})"
     if fn == "trim":
@@ -58,6 +67,8 @@ def canon(v, op):
     if v is None:
         return "null", "", "NoneType"
     ty = type(v).__name__
+    if op["fn"] == "todecbig":
+        return "val", str(v) if isinstance(v, (decimal.Decimal, int)) and not isinstance(v, bool) else repr(v), "Decimal" if isinstance(v, decimal.Decimal) else ty
     if op["fn"] == "todec":
         if not isinstance(v, (decimal.Decimal, int)):
             return "val", repr(v), ty
@@ -258,6 +269,8 @@ class C10(Prop):
             ok = one("select sha2('')") == hashlib.sha256(b"").hexdigest() == "e3b0c44298fc1c149afbf4c8996fb92427ae41e4649b934ca495991b7852b855"
         elif rel == "random_same_seed_repeatable":
             ok = one("select random(42)") == one("select random(42)") and isinstance(one("select random(42)"), int)
+        elif rel == "random_seed0_repeatable":
+            ok = one("select random(0)") == one("select random(0)") and one("select random(-3)") == one("select random(-3)")
         elif rel == "random_same_seed_equal":
             ok = one("select random(42) = random(42)")
         elif rel == "sample_seed_repeatable":
@@ -275,6 +288,16 @@ class C10(Prop):
             cur.execute("create or replace table ja (i int)")
             cur.execute("insert into ja values (1), (2)")
             ok = cur.execute("select a.i + 1 as k, b.i from ja a join ja b on k = b.i order by 1").fetchall() == [(2, 2)]
+        elif rel == "join_alias_other_block":
+            # an alias of ANOTHER query block (derived table, CTE, scalar subquery) is not an alias of this select list
+            cur.execute("create or replace table jb (id int, s varchar)")
+            cur.execute("insert into jb values (1, 'a'), (2, 'b'), (3, 'c')")
+            cur.execute("create or replace table jc (id int)")
+            cur.execute("insert into jc values (1), (3)")
+            r1 = cur.execute("select jc.id, b.s from jc join (select id as k, s from jb) b on k = jc.id order by 1").fetchall()
+            r2 = cur.execute("select jc.id + 0 as k, b.s from jc join (select id + 1 as k, s from jb) b on b.k = jc.id order by 1").fetchall()
+            r3 = cur.execute("with c as (select id as k from jb) select jc.id * 1 as k2, c.k from jc join c on k = jc.id order by 1").fetchall()
+            ok = r1 == [(1, "a"), (3, "c")] and r2 == [(3, "b")] and r3 == [(1, 1), (3, 3)]
         else:
             raise ValueError(rel)
         return "val", str(bool(ok)), "bool"
